@@ -297,6 +297,44 @@ theorem rebind_assigns_all (pats : List PatKind) (vs : List Int)
       simp only [Spec.OptRes.destructure, targets]
       rw [← hz]; simp
 
+/-- ORDER of the emitted statements: for 1 ≤ k ≤ 6 patterns the walker's assignments come in the
+    order of the user's list — the statement for pattern 0 first, then pattern 1, … (type assertions
+    of typed places aside).  With `rebind_walker_assigns_all` (statement `i` is `lhs_i = tuple.i`)
+    this is "component 0 is assigned first, component k-1 last". -/
+theorem rebind_walker_in_order (bare : Bool) (pats : List PatKind)
+    (h1 : 1 ≤ pats.length) (h6 : pats.length ≤ 6) :
+    (preprocess ⟨bare, pats⟩).map assignOrder = some (List.range pats.length) := by
+  by_cases hk : pats.length = 1
+  · match pats, hk with
+    | [p], _ =>
+      rw [rebind_walker_single]
+      by_cases hp : p = .typedPlace <;> simp [hp, assignOrder, List.range_succ]
+  · rw [rebind_walker_assigns_all bare pats (by omega) h6, Option.map_some,
+      assignOrder_expectedStmts, List.range_eq_range']
+
+/-- the same, observed on ANY store with ANY way of resolving place expressions (`write`): when the
+    payload is `Ok`, running what `try_rebind!` / `rebind_if_ok!` emit leaves the store exactly as
+    the hand-written sequence `p0 = t.0; p1 = t.1; …; p_{k-1} = t.{k-1};` (in this order) does —
+    also when a place reads a variable another component assigns (`(i, arr[i])`), when the same
+    place is listed several times (the LAST listed component stays), or when a `let` shadows -/
+theorem rebind_store_in_order {σ : Type} (write : σ → Lhs → Val → σ) (s : σ)
+    (u : UserPat) (annot : Bool) (vs : List Int)
+    (h1 : 1 ≤ u.pats.length) (h6 : u.pats.length ≤ 6)
+    (hty : PatKind.typedPlace ∉ u.pats ∨ annot = true) (hlen : vs.length = u.pats.length) :
+    (tryRebindMatches u = true → ∃ ws, tryRebind u u.pats.length annot (.ok vs) = .ok ws ∧
+      runWrites write s ws =
+        Spec.OptRes.assignSeq write payloadVal Val.scalar s (targets u.pats) vs) ∧
+    (rebindIfOkMatches u = true → ∃ ws, rebindIfOk u u.pats.length annot (.ok vs) = .ok ws ∧
+      runWrites write s ws =
+        Spec.OptRes.assignSeq write payloadVal Val.scalar s (targets u.pats) vs) := by
+  constructor
+  · intro hm
+    have h := tryRebind_eq_question u annot (.ok vs) h1 h6 hm hty (by intro vs' e; cases e; exact hlen)
+    exact ⟨_, h, runWrites_destructure write s (targets u.pats) vs⟩
+  · intro hm
+    have h := rebindIfOk_eq_if_let u annot (.ok vs) h1 h6 hm hty (by intro vs' e; cases e; exact hlen)
+    exact ⟨_, h, runWrites_destructure write s (targets u.pats) vs⟩
+
 /-! ## min!/max!, _by, _by_key -/
 
 /-- `min!`/`min_by!` return what `std::cmp::min`/`min_by` return, for EVERY comparator (lawful or
@@ -350,6 +388,10 @@ example : (tryRebind ⟨false, [.place, .letP, .typedLet, .wild, .exprPlace, .pl
     (.ok [1, 2, 3, 4, 5, 6])) = .ok [(⟨0, .place⟩, .scalar 1), (⟨1, .letP⟩, .scalar 2),
       (⟨2, .typedLet⟩, .scalar 3), (⟨3, .wild⟩, .scalar 4), (⟨4, .exprPlace⟩, .scalar 5),
       (⟨5, .place⟩, .scalar 6)] := by decide
+-- order matters: the same place listed twice keeps the LAST component (a store of one cell per
+-- pattern kind would not see it; here the store is one cell and every place writes it)
+example : (match tryRebind ⟨false, [.place, .place, .place]⟩ 3 false (.ok [1, 2, 3]) with
+    | .ok ws => runWrites (fun (_ : Val) _ v => v) (.scalar 0) ws | _ => .scalar 0) = .scalar 3 := by decide
 -- seven patterns do not expand; more patterns than components do not type-check
 example : tryRebind ⟨false, List.replicate 7 .place⟩ 6 false (.ok [1, 2, 3, 4, 5, 6]) = .reject := by decide
 example : rebindIfOk ⟨false, [.place, .place, .place]⟩ 2 false (.ok [1, 2]) = .reject := by decide
